@@ -558,11 +558,17 @@ func TestSeededDefects(t *testing.T) {
 	rec.Rule(rule + ruleMore)
 	rec.Assume("diagnostics are recognised by their message templates; a diagnostic that is a consequence of a seeded defect (e.g. a token declared only with an unknown predefined name has no definition) counts as present; token conflicts reported by DFA() belong to C03 and are ignored here")
 	rec.Check(t, 4000, 160000, func(t *rapid.T) {
-		lits := []string{"a", "b", "+", "if"}
+		lits := []string{"a", "b", "+", "if", `q\"`, `\\`}
 		if rapid.IntRange(0, 24).Draw(t, "conflatingLiteral") == 0 {
 			lits = append(lits, "TK")
 		}
 		m := gen.Spec(t, gen.SpecOpts{MaxRules: 3, Depth: 2, Literals: lits, Tokens: []string{"TK", "NUM", "ID"}, Directives: 2, RuleHandles: true, DupRules: true, EmptyRules: true})
+		// named string tokens whose text ends in an escaped quotation mark or a backslash (values are the text as written)
+		for _, d := range m.Decls {
+			if d.Kind == "token" && d.TokKind == "string" && rapid.IntRange(0, 2).Draw(t, "escapedEnd") == 0 {
+				d.Text = rapid.SampledFrom([]string{`\"`, `z\"\"`, `y\\`, `w\"`}).Draw(t, "tokenText")
+			}
+		}
 		var seeded []string
 		nd := rapid.SampledFrom([]int{0, 0, 0, 1, 1, 2, 2, 3}).Draw(t, "ndefects")
 		for i := 0; i < nd; i++ {
